@@ -64,7 +64,7 @@ def _first_unreached(a, b):
 
 def check(spec):
     t = spec["t"]
-    fam = treg.family(t)
+    fam = spec.get("fam") or treg.family(t)
     s, m, h = spec["seed"], spec["m"], spec["h"]
     inputs = [treg.make_input(fam, spec["key"] + i) for i in range(m)]
     # instance A: built under G1, used h times before the seed is injected
@@ -88,7 +88,8 @@ def check(spec):
                 try:
                     T.scale_strength(f)
                 except AssertionError:
-                    raise Refused("scale_strength refused (KDRandomRotation lb != ub)")
+                    # KDRandomRotation asserts lb == ub before changing anything: no strength history for this case
+                    return
     _scale(spec.get("pre_scale"))
     try:
         A.set_rng(np.random.default_rng(s))
@@ -149,7 +150,13 @@ def _leaf_facet(name):
                  min_nontrivial={"quick": 0, "thorough": 0}, case_timeout=120)
 
 
-FACETS = [_leaf_facet(n) for n in treg.LEAVES]
+def _pil_facet(name):
+    return Facet("pil-input:" + name, check, strategy=lambda tier, n=name: _wrap(treg.leaf_spec(n)).map(lambda s: dict(s, fam="pil_any")),
+                 budget={"quick": 40, "thorough": 600}, shards={"quick": 1, "thorough": 1},
+                 min_nontrivial={"quick": 0, "thorough": 0}, case_timeout=120)
+
+
+FACETS = [_leaf_facet(n) for n in treg.LEAVES] + [_pil_facet(n) for n in treg.PIL_OK]
 FACETS += [
     Facet("composites", check, strategy=lambda tier: _wrap(treg.img_composite(depth=3)),
           budget={"quick": 1200, "thorough": 20000}, shards={"quick": 6, "thorough": 16},
